@@ -487,6 +487,7 @@
 #![deny(missing_docs)]
 #![deny(missing_debug_implementations)]
 #![cfg_attr(test, deny(warnings))]
+#![cfg_attr(feature = "ypo_flute_verif", allow(missing_docs, missing_debug_implementations))]
 
 mod common;
 mod fec;
@@ -524,6 +525,40 @@ pub mod core {
 
 #[cfg(feature = "python")]
 mod py;
+
+/// Verification hooks: re-exports of private modules (feature `ypo_flute_verif` only)
+#[cfg(feature = "ypo_flute_verif")]
+pub mod verif_hooks {
+    pub mod alc {
+        pub use crate::common::alc::*;
+    }
+    pub mod fdtinstance {
+        pub use crate::common::fdtinstance::*;
+    }
+    pub mod lct {
+        pub use crate::common::lct::*;
+    }
+    pub mod oti {
+        pub use crate::common::oti::*;
+    }
+    pub mod partition {
+        pub use crate::common::partition::*;
+    }
+    pub mod pkt {
+        pub use crate::common::pkt::*;
+    }
+    pub mod fec {
+        pub use crate::fec::*;
+    }
+    pub use crate::receiver::verif_hooks as receiver;
+    pub use crate::sender::verif_hooks as sender;
+    pub mod tools {
+        pub use crate::tools::*;
+    }
+    pub mod ringbuffer {
+        pub use crate::tools::ringbuffer::*;
+    }
+}
 
 #[cfg(test)]
 mod tests {
